@@ -42,8 +42,10 @@ Clause map
   same stack, same tree — by induction over the reuse events), `reused_not_lexed` (lexed + reused
   = consumed tokens).  The certificates `LR.ReuseOK` are CHECKED on the real runtime's reuse events
   by running this machine on the dumped tables (Judge.lean `certifyReuse`, Drivers/C01.lean).
-* OPEN: GLR versions, error recovery, non-terminal extras, keyword re-labelling inside the
-  machine; `incr_error_iff`.  On the implementation whole-tree equality is DECIDED per case by
+* `incr_error_iff` on the machine (error = stuck): a halted incremental run errs/accepts iff the
+  scratch run does.
+* OPEN: GLR versions, error recovery (what happens AFTER the first error), non-terminal extras,
+  keyword re-labelling inside the machine.  On the implementation whole-tree equality is DECIDED per case by
   `judge` (Judge.lean).
 * Genuine defect found by the judge (see the last section): a column-dependent token is reused
   although an included-range difference lies earlier on its line.  `reuseGate` therefore carries
@@ -555,6 +557,25 @@ theorem incr_eq_scratch (T : LR.Table) (bottom : Nat) (l r : Nat) (c d : LR.Stac
   refine ⟨n, fun m => ?_⟩
   rw [LR.run_steps T bottom m n _ _ _ _ hn]
   exact run_final T bottom d hf m
+
+/-- The machine accepts in configuration `d`. -/
+def accepting (T : LR.Table) (bottom : Nat) (d : LR.Stack × List Tok) : Prop :=
+  ∃ x rest, d.2 = x :: rest ∧ T.action (LR.top bottom d.1) x.sym = .accept
+
+/-- The machine reports a syntax error in `d`: it cannot move and does not accept (in the real
+parser this is where `ts_parser__handle_error` takes over — not modelled). -/
+def erroring (T : LR.Table) (bottom : Nat) (d : LR.Stack × List Tok) : Prop :=
+  LR.step T bottom d.1 d.2 = none ∧ ¬ accepting T bottom d
+
+/-- `incr_error_iff` (on the machine; error = the machine is stuck): an incremental run that has
+come to a halt reports an error iff the from-scratch run of the same tokens does, and accepts iff
+it does — both are the same configuration by `incr_eq_scratch`. -/
+theorem incr_error_iff (T : LR.Table) (bottom : Nat) (l r : Nat) (c d : LR.Stack × List Tok)
+    (h : LR.IncrRun T bottom l r c d) (hf : LR.step T bottom d.1 d.2 = none) :
+    ∃ n, ∀ m, (erroring T bottom (LR.run T bottom (n + m) c.1 c.2) ↔ erroring T bottom d) ∧
+              (accepting T bottom (LR.run T bottom (n + m) c.1 c.2) ↔ accepting T bottom d) := by
+  obtain ⟨n, hn⟩ := incr_eq_scratch T bottom l r c d h hf
+  exact ⟨n, fun m => by rw [hn m]; exact ⟨Iff.rfl, Iff.rfl⟩⟩
 
 theorem step_input (T : LR.Table) (bottom : Nat) (st st' : LR.Stack) (inp inp' : List Tok)
     (h : LR.step T bottom st inp = some (st', inp')) : inp'.length ≤ inp.length := by
